@@ -62,6 +62,8 @@ type FuncInfo struct {
 	reachC   map[[2]int]bool
 	hdrDone  map[*ssa.BasicBlock]bool
 	congC    map[*ssa.Phi]int64
+	joinC    map[*ssa.BasicBlock][]lin.Con
+	joinBusy map[*ssa.BasicBlock]bool
 	invStack []*ssa.BasicBlock
 	provisional map[*ssa.BasicBlock][]*ssa.BasicBlock
 }
@@ -237,10 +239,10 @@ func (c *Ctx) addDominating(b *ssa.BasicBlock) {
 			c.addEdge(d, x)
 			continue
 		}
-		// several predecessors: a condition still holds if every predecessor
-		// edge that is not a back edge into x carries it… keep it simple:
-		// all preds are the same block d (both branches join) → nothing.
-		// Special case: all non-dominated preds come from d's one branch.
+		// several predecessors (a short-circuit `v == 2 || v == 3`, a switch case with
+		// several values, an if/else that joins): the bounds against constants that
+		// hold on EVERY incoming edge hold in x
+		c.add(c.FI.joinFacts(x)...)
 	}
 }
 
@@ -1005,5 +1007,96 @@ func (c *Ctx) FactStrings(g lin.Con, max int) []string {
 			}
 		}
 	}
+	return out
+}
+
+// joinFacts: for a block with several predecessors that is not a loop header,
+// the facts `v >= k` / `v <= k` (v an integer compared with constants in the
+// predecessors' branch conditions, k one of those constants) that are entailed
+// on every incoming edge.
+func (fi *FuncInfo) joinFacts(x *ssa.BasicBlock) []lin.Con {
+	if fi.joinC == nil {
+		fi.joinC = map[*ssa.BasicBlock][]lin.Con{}
+		fi.joinBusy = map[*ssa.BasicBlock]bool{}
+	}
+	if f, ok := fi.joinC[x]; ok {
+		return f
+	}
+	if fi.joinBusy[x] || len(x.Preds) < 2 || len(x.Preds) > 8 {
+		return nil
+	}
+	for _, p := range x.Preds {
+		if x.Dominates(p) {
+			fi.joinC[x] = nil
+			return nil // loop header: invariants are inferred elsewhere
+		}
+	}
+	fi.joinBusy[x] = true
+	defer func() { fi.joinBusy[x] = false }()
+	// candidate (value, constant) pairs from the conditions that lead here
+	type cand struct {
+		v ssa.Value
+		k *big.Int
+	}
+	var cands []cand
+	seen := map[string]bool{}
+	addCand := func(v ssa.Value, k *big.Int) {
+		if _, _, isInt := isIntType(v.Type()); !isInt {
+			return
+		}
+		key := v.Name() + "/" + k.String()
+		if !seen[key] {
+			seen[key] = true
+			cands = append(cands, cand{v, k})
+		}
+	}
+	for _, p := range x.Preds {
+		for y, n := p, 0; y != nil && n < 4; y, n = y.Idom(), n+1 {
+			iff, ok := y.Instrs[len(y.Instrs)-1].(*ssa.If)
+			if !ok {
+				continue
+			}
+			bo, ok := iff.Cond.(*ssa.BinOp)
+			if !ok || !isCmp(bo.Op) {
+				continue
+			}
+			if k, isK := constInt(bo.Y); isK {
+				addCand(bo.X, k)
+			} else if k, isK := constInt(bo.X); isK {
+				addCand(bo.Y, k)
+			}
+		}
+	}
+	if len(cands) == 0 || len(cands) > 24 {
+		fi.joinC[x] = nil
+		return nil
+	}
+	ctxs := make([]*Ctx, len(x.Preds))
+	for i, p := range x.Preds {
+		ctxs[i] = fi.CtxEdge(p, x)
+	}
+	var out []lin.Con
+	for _, cd := range cands {
+		for _, ge := range []bool{true, false} {
+			all := true
+			var g lin.Con
+			for _, c := range ctxs {
+				f := c.Lin(cd.v)
+				if ge {
+					g = lin.GE(f, lin.KB(cd.k))
+				} else {
+					g = lin.LE(f, lin.KB(cd.k))
+				}
+				if !c.Entails(g) {
+					all = false
+					break
+				}
+			}
+			if all {
+				out = append(out, g)
+			}
+		}
+	}
+	fi.joinC[x] = out
 	return out
 }
